@@ -5,12 +5,14 @@ Open Scope Z_scope.
 
 (* ---- the statistic --------------------------------------------------------- *)
 
-Lemma corr_sym t d : length t = length d -> corr d t = corr t d.
+Lemma combine_swap (t d : list Z) : combine d t = map swap (combine t d).
 Proof.
-  intro H. unfold corr. rewrite <- (pearson_swap (combine t d)). f_equal.
-  revert d H. induction t as [|a t IH]; intros [|b d] H; try discriminate; [reflexivity|].
-  cbn [combine map]. unfold swap at 1. cbn [fst snd]. f_equal. apply IH. inversion H. reflexivity.
+  revert d. induction t as [|a t IH]; intros [|b d]; try reflexivity.
+  cbn [combine map]. unfold swap at 1. cbn [fst snd]. f_equal. apply IH.
 Qed.
+
+Lemma corr_sym t d : corr d t = corr t d.
+Proof. unfold corr. rewrite combine_swap. apply pearson_swap. Qed.
 
 Lemma corr_nan_iff t d :
   corr t d = None <-> constant_on fx (combine t d) \/ constant_on fy (combine t d).
@@ -18,3 +20,629 @@ Proof. apply pearson_none_iff. Qed.
 
 Lemma corr_sq_le_1 t d s r : corr t d = Some (s, r) -> (0 <= r <= 1)%Q.
 Proof. apply pearson_r2_range. Qed.
+
+(* ---- the pinned tree ------------------------------------------------------------ *)
+
+Definition witness16 : lcase :=
+  mkl 0 [mkgv 0 0 1 [(0, 0); (0, 0)] []] [] [true; true] None true (Err 5) None.
+
+Lemma legacy_refuted :
+  wf witness16 = true /\ legacy_ld witness16 = Err E_Attr /\ holds_ld witness16 = false
+  /\ model_ld witness16 = Ok [(0, None)].
+Proof. vm_compute. repeat split; reflexivity. Qed.
+
+(* ---- generic list facts ------------------------------------------------------------ *)
+
+Lemma map_filter_comm {A B} (f : A -> B) (p : B -> bool) l :
+  map f (filter (fun a => p (f a)) l) = filter p (map f l).
+Proof. induction l as [|a l IH]; [reflexivity|]. cbn. destruct (p (f a)); cbn; rewrite IH; reflexivity. Qed.
+
+Lemma filter_all {A} (f : A -> bool) l : (forall a, In a l -> f a = true) -> filter f l = l.
+Proof.
+  induction l as [|a l IH]; intro H; [reflexivity|]. cbn. rewrite (H a) by (left; reflexivity).
+  rewrite IH; [reflexivity|]. intros x Hx. apply H. right. exact Hx.
+Qed.
+
+Lemma filter_filter {A} (f g : A -> bool) l : filter g (filter f l) = filter (fun a => f a && g a) l.
+Proof.
+  induction l as [|a l IH]; [reflexivity|]. cbn. destruct (f a); cbn; [|exact IH].
+  destruct (g a); rewrite IH; reflexivity.
+Qed.
+
+Lemma memZ_cons x a l : memZ x (a :: l) = (x =? a) || memZ x l.
+Proof. reflexivity. Qed.
+
+Lemma memZ_In x l : memZ x l = true <-> In x l.
+Proof.
+  unfold memZ. rewrite existsb_exists. split.
+  - intros (y & Hy & E). apply Z.eqb_eq in E. subst. exact Hy.
+  - intro H. exists x. split; [exact H|apply Z.eqb_refl].
+Qed.
+
+Lemma memZ_app x l1 l2 : memZ x (l1 ++ l2) = memZ x l1 || memZ x l2.
+Proof. apply existsb_app. Qed.
+
+Lemma map_res_fst {A B} (key : A -> Z) (f : A -> res B) l hd :
+  map_res (fun a => bind (f a) (fun d => Ok (key a, d))) l = Ok hd -> map fst hd = map key l.
+Proof.
+  revert hd. induction l as [|a l IH]; intros hd H; cbn in H.
+  - inversion H. reflexivity.
+  - destruct (f a) as [d|e]; cbn in H; [|discriminate].
+    destruct (map_res (fun a => bind (f a) (fun d => Ok (key a, d))) l) as [r|e]; cbn in H; [|discriminate].
+    inversion H; subst. cbn. f_equal. apply IH. reflexivity.
+Qed.
+
+(* ---- haplotypes --------------------------------------------------------------------- *)
+
+Lemma load_haps_ids flt lines :
+  map h_id (load_haps flt lines)
+  = filter (fun id => match flt with None => true | Some s => memZ id s end) (hap_ids lines).
+Proof.
+  unfold hap_ids, load_haps. induction lines as [|ln r IH]; [reflexivity|].
+  cbn [flat_map]. rewrite !map_app, IH. destruct ln as [h|i]; cbn [app map]; [|reflexivity].
+  destruct flt as [s|]; cbn [filter map app].
+  - destruct (memZ (h_id h) s); reflexivity.
+  - reflexivity.
+Qed.
+
+Lemma find_hap_none t hs : find_hap t hs = None -> forall id, In id (map h_id hs) -> (id =? t) = false.
+Proof.
+  unfold find_hap. intros H id Hid. apply in_map_iff in Hid. destruct Hid as (h & <- & Hh).
+  exact (find_none _ _ H h Hh).
+Qed.
+
+Lemma find_hap_some t hs h : find_hap t hs = Some h -> In h hs /\ h_id h = t.
+Proof. unfold find_hap. intro H. apply find_some in H. destruct H as [H E]. apply Z.eqb_eq in E. tauto. Qed.
+
+Lemma remove_hap_ids t hs : map h_id (remove_hap t hs) = filter (fun id => negb (id =? t)) (map h_id hs).
+Proof. unfold remove_hap. apply (map_filter_comm h_id (fun id => negb (id =? t))). Qed.
+
+(* ---- variants ----------------------------------------------------------------------- *)
+
+Lemma find_var_filter v s gs : memZ v s = true ->
+  find_var v (filter (fun g => memZ (gv_id g) s) gs) = find_var v gs.
+Proof.
+  intro Hv. unfold find_var. induction gs as [|g r IH]; [reflexivity|]. cbn [filter find].
+  destruct (gv_id g =? v) eqn:E.
+  - apply Z.eqb_eq in E. rewrite E, Hv. cbn [find]. rewrite E, Z.eqb_refl. reflexivity.
+  - destruct (memZ (gv_id g) s); [cbn [find]; rewrite E|]; exact IH.
+Qed.
+
+Lemma find_var_id v gs g : find_var v gs = Some g -> gv_id g = v.
+Proof. unfold find_var. intro H. apply find_some in H. apply Z.eqb_eq. tauto. Qed.
+
+Lemma find_var_mem v gs : memZ v (var_ids gs) = match find_var v gs with Some _ => true | None => false end.
+Proof.
+  unfold var_ids, find_var. induction gs as [|g r IH]; [reflexivity|]. cbn [map find]. rewrite memZ_cons, IH.
+  rewrite (Z.eqb_sym v). destruct (gv_id g =? v); reflexivity.
+Qed.
+
+Lemma listed_by_ids gs loaded l :
+  (forall id, In id l -> find_var id loaded = find_var id gs) ->
+  map gv_id (flat_map (fun id => match find_var id loaded with Some g => [g] | None => [] end) l)
+  = filter (fun id => memZ id (var_ids gs)) l.
+Proof.
+  induction l as [|id l IH]; intro H; [reflexivity|]. cbn [flat_map filter]. rewrite map_app, IH.
+  - rewrite find_var_mem, (H id) by (left; reflexivity).
+    destruct (find_var id gs) as [g|] eqn:E; [|reflexivity]. cbn. rewrite (find_var_id _ _ _ E). reflexivity.
+  - intros x Hx. apply H. right. exact Hx.
+Qed.
+
+(* ---- what is listed ------------------------------------------------------------------- *)
+
+Definition listing_spec (target : Z) (gs : list gvar) (lines : list hline) (ids : option (list Z))
+           (from_gts : bool) : list Z :=
+  let req id := match ids with None => true | Some l => memZ id l end in
+  if from_gts then
+    if memZ target (hap_ids lines) then
+      match ids with
+      | None => var_ids gs                                         (* every variant, file order *)
+      | Some l => filter (fun id => memZ id (var_ids gs)) l        (* the requested ones, --id order *)
+      end
+    else filter (fun id => req id || (id =? target)) (var_ids gs)  (* requested + the target variant *)
+  else filter (fun id => req id && negb (id =? target)) (hap_ids lines).
+
+Lemma th_mem target lines :
+  memZ target (hap_ids lines) = match find_hap target (load_haps None lines) with Some _ => true | None => false end.
+Proof.
+  unfold hap_ids, find_hap. induction (load_haps None lines) as [|h r IH]; [reflexivity|].
+  cbn [map find]. rewrite memZ_cons, IH, (Z.eqb_sym target). destruct (h_id h =? target); reflexivity.
+Qed.
+
+Lemma ld_listing_lemma target gs lines keep ids fg rows :
+  calc_ld false target gs lines keep ids fg = Ok rows ->
+  map fst rows = listing_spec target gs lines ids fg.
+Proof.
+  unfold calc_ld, listing_spec. destruct fg.
+  - (* --from-gts: rows are variants *)
+    rewrite th_mem. set (hs := load_haps None lines).
+    destruct (find_hap target hs) as [h|] eqn:TH.
+    + cbn [bind]. destruct ids as [l|].
+      * set (loaded := filter _ gs).
+        destruct (existsb _ loaded); [discriminate|]. cbn [bind].
+        destruct (hap_dosage loaded keep h) as [td|e]; cbn [bind]; [|discriminate].
+        intro H. inversion H; subst. rewrite map_map. cbn [fst]. change (fun x : gvar => gv_id x) with gv_id.
+        apply listed_by_ids. intros id Hid. apply find_var_filter.
+        rewrite memZ_app. apply orb_true_iff. left. apply memZ_In. exact Hid.
+      * destruct (existsb _ gs); [discriminate|]. cbn [bind].
+        destruct (hap_dosage gs keep h) as [td|e]; cbn [bind]; [|discriminate].
+        intro H. inversion H; subst. rewrite map_map. reflexivity.
+    + destruct ids as [l|]; cbn [bind].
+      * set (loaded := filter _ gs).
+        destruct (existsb _ loaded); [discriminate|]. cbn [bind].
+        destruct (find_var target loaded) as [g|]; cbn [bind]; [|discriminate].
+        intro H. inversion H; subst. rewrite map_map. cbn [fst]. change (fun x : gvar => gv_id x) with gv_id.
+        unfold loaded, var_ids.
+        rewrite (map_filter_comm gv_id (fun id => memZ id (target :: l ++ []))).
+        apply filter_ext. intro id. rewrite memZ_cons, app_nil_r. apply orb_comm.
+      * destruct (existsb _ gs); [discriminate|]. cbn [bind].
+        destruct (find_var target gs) as [g|]; cbn [bind]; [|discriminate].
+        intro H. inversion H; subst. rewrite map_map. cbn [fst]. change (fun x : gvar => gv_id x) with gv_id.
+        symmetry. apply filter_all. reflexivity.
+  - (* .hap output: rows are haplotypes *)
+    set (hflt := option_map (fun l => target :: l) ids). set (hs := load_haps hflt lines).
+    destruct (find_hap target hs) as [h|] eqn:TH; cbn [bind].
+    + set (loaded := filter _ gs).
+      destruct (existsb _ loaded); [discriminate|].
+      destruct (map_res _ (remove_hap target hs)) as [hd|e] eqn:MR; cbn [bind]; [|discriminate].
+      destruct (hap_dosage loaded keep h) as [td|e]; cbn [bind]; [|discriminate].
+      intro H. inversion H; subst. rewrite map_map. cbn [fst].
+      change (fun x : Z * list Z => fst x) with (@fst Z (list Z)).
+      rewrite (map_res_fst h_id _ _ _ MR), remove_hap_ids. unfold hs. rewrite load_haps_ids, filter_filter.
+      apply filter_ext. intro id. unfold hflt. destruct ids as [l|]; cbn [option_map]; [|reflexivity].
+      rewrite memZ_cons. destruct (id =? target), (memZ id l); reflexivity.
+    + set (loaded := filter _ gs).
+      destruct (existsb _ loaded); [discriminate|].
+      destruct (map_res _ hs) as [hd|e] eqn:MR; cbn [bind]; [|discriminate].
+      destruct (find_var target loaded) as [g|]; cbn [bind]; [|discriminate].
+      intro H. inversion H; subst. rewrite map_map. cbn [fst].
+      change (fun x : Z * list Z => fst x) with (@fst Z (list Z)).
+      rewrite (map_res_fst h_id _ _ _ MR).
+      pose proof (find_hap_none _ _ TH) as NT. unfold hs in *. rewrite load_haps_ids in *.
+      (* no haplotype of the file is called [target] *)
+      assert (forall id, In id (hap_ids lines) -> (id =? target) = false) as NT'.
+      { intros id Hid. destruct (id =? target) eqn:E; [|reflexivity].
+        rewrite <- E. apply NT. apply filter_In. split; [exact Hid|].
+        unfold hflt. destruct ids as [l|]; cbn [option_map]; [|reflexivity]. rewrite memZ_cons, E. reflexivity. }
+      apply filter_ext_in. intros id Hid. rewrite (NT' id Hid). unfold hflt.
+      destruct ids as [l|]; cbn [option_map]; [|reflexivity].
+      rewrite memZ_cons, (NT' id Hid). cbn. rewrite andb_true_r. reflexivity.
+Qed.
+
+(* ---- consequences in the property's words ------------------------------------------------ *)
+
+Definition req_in (ids : option (list Z)) (id : Z) : Prop :=
+  match ids with None => True | Some l => In id l end.
+
+Lemma req_in_b ids id : (match ids with None => true | Some l => memZ id l end) = true <-> req_in ids id.
+Proof. destruct ids as [l|]; cbn; [apply memZ_In|tauto]. Qed.
+
+(* the target haplotype itself is not listed *)
+Lemma target_hap_not_listed target gs lines keep ids rows :
+  calc_ld false target gs lines keep ids false = Ok rows -> ~ In target (map fst rows).
+Proof.
+  intros H K. rewrite (ld_listing_lemma _ _ _ _ _ _ _ H) in K. cbn in K.
+  apply filter_In in K. destruct K as [_ K]. rewrite Z.eqb_refl, andb_false_r in K. discriminate.
+Qed.
+
+(* a variant target is listed among the variants in --from-gts mode *)
+Lemma variant_target_listed target gs lines keep ids rows :
+  calc_ld false target gs lines keep ids true = Ok rows ->
+  ~ In target (hap_ids lines) -> In target (var_ids gs) -> In target (map fst rows).
+Proof.
+  intros H NH HV. rewrite (ld_listing_lemma _ _ _ _ _ _ _ H). cbn.
+  destruct (memZ target (hap_ids lines)) eqn:E; [apply memZ_In in E; contradiction|].
+  apply filter_In. split; [exact HV|]. rewrite Z.eqb_refl. apply orb_true_r.
+Qed.
+
+(* every requested haplotype / variant is listed, and listed once *)
+Lemma requested_listed_once target gs lines keep ids fg rows :
+  calc_ld false target gs lines keep ids fg = Ok rows ->
+  NoDup (hap_ids lines) -> NoDup (var_ids gs) -> match ids with Some l => NoDup l | None => True end ->
+  NoDup (map fst rows) /\
+  forall id, req_in ids id ->
+    (if fg then In id (var_ids gs) else In id (hap_ids lines) /\ id <> target) -> In id (map fst rows).
+Proof.
+  intros H NH NV NI. rewrite (ld_listing_lemma _ _ _ _ _ _ _ H). unfold listing_spec.
+  destruct fg.
+  - destruct (memZ target (hap_ids lines)).
+    + destruct ids as [l|].
+      * split; [apply NoDup_filter; exact NI|]. intros id R V. apply filter_In. split; [exact R|].
+        apply memZ_In. exact V.
+      * split; [exact NV|]. intros id _ V. exact V.
+    + split; [apply NoDup_filter; exact NV|]. intros id R V. apply filter_In. split; [exact V|].
+      apply orb_true_iff. left. apply req_in_b. exact R.
+  - split; [apply NoDup_filter; exact NH|]. intros id R [V NT]. apply filter_In. split; [exact V|].
+    apply andb_true_iff. split; [apply req_in_b; exact R|].
+    apply negb_true_iff. apply Z.eqb_neq. exact NT.
+Qed.
+
+(* ---- no mode raises on well-formed input ---------------------------------------------------- *)
+
+Definition inputs_ok (target : Z) (gs : list gvar) (lines : list hline) (keep : list bool) : bool :=
+  forallb (fun g => negb (calls_bad 0 keep (gv_calls g) (gv_unph g))) gs
+  && forallb (hap_ok gs) (load_haps None lines)
+  && (memZ target (hap_ids lines) || memZ target (var_ids gs)).
+
+Lemma hap_strands_ext gs1 gs2 keep vars : forall acc,
+  (forall va, In va vars -> find_var (fst va) gs1 = find_var (fst va) gs2) ->
+  hap_strands gs1 keep vars acc = hap_strands gs2 keep vars acc.
+Proof.
+  induction vars as [|[v a] r IH]; intros acc H; [reflexivity|]. cbn [hap_strands].
+  pose proof (H (v, a) (or_introl eq_refl)) as E. cbn [fst] in E. rewrite E.
+  destruct (find_var v gs2) as [g|]; [|reflexivity]. destruct (allele_index g a); [|reflexivity].
+  apply IH. intros va Hva. apply H. right. exact Hva.
+Qed.
+
+Lemma hap_strands_ok gs keep vars : forall acc,
+  forallb (fun va : Z * Z => match find_var (fst va) gs with
+                             | Some g => match allele_index g (snd va) with Some _ => true | None => false end
+                             | None => false end) vars = true ->
+  exists st, hap_strands gs keep vars acc = Ok st.
+Proof.
+  induction vars as [|[v a] r IH]; intros acc H; [exists acc; reflexivity|].
+  cbn [forallb fst snd] in H. apply andb_true_iff in H. destruct H as [H1 H2]. cbn [hap_strands].
+  destruct (find_var v gs) as [g|]; [|discriminate]. destruct (allele_index g a); [|discriminate].
+  apply IH. exact H2.
+Qed.
+
+Lemma hap_dosage_ok gs loaded keep h :
+  hap_ok gs h = true ->
+  (forall va, In va (h_vars h) -> find_var (fst va) loaded = find_var (fst va) gs) ->
+  exists d, hap_dosage loaded keep h = Ok d.
+Proof.
+  intros OK EXT. unfold hap_dosage. rewrite (hap_strands_ext loaded gs) by exact EXT.
+  unfold hap_ok in OK. apply andb_true_iff in OK. destruct OK as [_ OK].
+  destruct (hap_strands_ok gs keep (h_vars h) (map (fun _ => (true, true)) (filter (fun k : bool => k) keep)) OK) as [st E].
+  rewrite E. cbn [bind]. eexists. reflexivity.
+Qed.
+
+Lemma map_res_total {A B} (f : A -> res B) l :
+  (forall a, In a l -> exists b, f a = Ok b) -> exists bs, map_res f l = Ok bs.
+Proof.
+  induction l as [|a l IH]; intro H; [exists []; reflexivity|]. cbn [map_res].
+  destruct (H a) as [b E]; [left; reflexivity|]. rewrite E. cbn [bind].
+  destruct IH as [bs E2]; [intros x Hx; apply H; right; exact Hx|]. rewrite E2. cbn [bind]. eexists. reflexivity.
+Qed.
+
+Lemma load_haps_incl flt lines h : In h (load_haps flt lines) -> In h (load_haps None lines).
+Proof.
+  unfold load_haps. rewrite !in_flat_map. intros (ln & Hln & Hh). exists ln. split; [exact Hln|].
+  destruct ln as [h'|i]; [|exact Hh]. destruct flt as [s|]; [|exact Hh].
+  destruct (memZ (h_id h') s); [exact Hh|contradiction].
+Qed.
+
+Lemma hap_vars_in_set (hs : list hap) h va :
+  In h hs -> In va (h_vars h) -> memZ (fst va) (flat_map (fun h => map fst (h_vars h)) hs) = true.
+Proof.
+  intros Hh Hva. apply memZ_In. apply in_flat_map. exists h. split; [exact Hh|]. apply in_map. exact Hva.
+Qed.
+
+Lemma no_bad_in_filter keep (p : gvar -> bool) gs :
+  forallb (fun g => negb (calls_bad 0 keep (gv_calls g) (gv_unph g))) gs = true ->
+  existsb (fun g => calls_bad 0 keep (gv_calls g) (gv_unph g)) (filter p gs) = false.
+Proof.
+  intro H. destruct (existsb _ (filter p gs)) eqn:E; [|reflexivity].
+  apply existsb_exists in E. destruct E as (g & Hg & B). apply filter_In in Hg. destruct Hg as [Hg _].
+  rewrite forallb_forall in H. specialize (H g Hg). rewrite B in H. discriminate.
+Qed.
+
+Lemma no_bad_all keep gs :
+  forallb (fun g => negb (calls_bad 0 keep (gv_calls g) (gv_unph g))) gs = true ->
+  existsb (fun g => calls_bad 0 keep (gv_calls g) (gv_unph g)) gs = false.
+Proof.
+  intro H. rewrite <- (filter_all (fun _ => true) gs) by reflexivity. apply no_bad_in_filter. exact H.
+Qed.
+
+Lemma find_var_present v gs : memZ v (var_ids gs) = true -> exists g, find_var v gs = Some g.
+Proof. rewrite find_var_mem. destruct (find_var v gs) as [g|]; [eexists; reflexivity|discriminate]. Qed.
+
+Lemma ld_modes_total_lemma target gs lines keep ids fg :
+  inputs_ok target gs lines keep = true ->
+  exists rows, calc_ld false target gs lines keep ids fg = Ok rows.
+Proof.
+  unfold inputs_ok. rewrite !andb_true_iff. intros [[NB HO] TG].
+  rewrite forallb_forall in HO.
+  unfold calc_ld. destruct fg.
+  - (* --from-gts *)
+    rewrite th_mem in TG. set (hs := load_haps None lines) in *.
+    destruct (find_hap target hs) as [h|] eqn:TH.
+    + destruct (find_hap_some _ _ _ TH) as [Hh _]. cbn [bind]. destruct ids as [l|].
+      * rewrite no_bad_in_filter by exact NB. cbn [bind].
+        destruct (hap_dosage_ok gs (filter (fun g => memZ (gv_id g) (l ++ map fst (h_vars h))) gs) keep h (HO h Hh)) as [d E].
+        { intros va Hva. apply find_var_filter. rewrite memZ_app. apply orb_true_iff. right.
+          apply memZ_In. apply in_map. exact Hva. }
+        rewrite E. cbn [bind]. eexists. reflexivity.
+      * rewrite no_bad_all by exact NB. cbn [bind].
+        destruct (hap_dosage_ok gs gs keep h (HO h Hh)) as [d E]; [reflexivity|].
+        rewrite E. cbn [bind]. eexists. reflexivity.
+    + cbn [orb] in TG. destruct (find_var_present _ _ TG) as [g Eg]. destruct ids as [l|]; cbn [bind].
+      * rewrite no_bad_in_filter by exact NB. cbn [bind].
+        rewrite find_var_filter by (rewrite memZ_cons, Z.eqb_refl; reflexivity).
+        rewrite Eg. cbn [bind]. eexists. reflexivity.
+      * rewrite no_bad_all by exact NB. cbn [bind]. rewrite Eg. cbn [bind]. eexists. reflexivity.
+  - (* .hap output *)
+    set (hflt := option_map (fun l => target :: l) ids). set (hs := load_haps hflt lines).
+    assert (forall h, In h hs -> hap_ok gs h = true) as HO'
+      by (intros h Hh; apply HO; eapply load_haps_incl; exact Hh).
+    destruct (find_hap target hs) as [h|] eqn:TH; cbn [bind].
+    + destruct (find_hap_some _ _ _ TH) as [Hh _].
+      rewrite no_bad_in_filter by exact NB.
+      set (loaded := filter _ gs).
+      assert (forall h', In h' hs -> exists d, hap_dosage loaded keep h' = Ok d) as HD.
+      { intros h' Hh'. apply (hap_dosage_ok gs); [apply HO'; exact Hh'|].
+        intros va Hva. apply find_var_filter. eapply hap_vars_in_set; eassumption. }
+      destruct (map_res_total (fun h0 => bind (hap_dosage loaded keep h0) (fun d => Ok (h_id h0, d))) (remove_hap target hs)) as [hd E].
+      { intros h' Hh'. unfold remove_hap in Hh'. apply filter_In in Hh'. destruct Hh' as [Hh' _].
+        destruct (HD h' Hh') as [d Ed]. rewrite Ed. cbn [bind]. eexists. reflexivity. }
+      rewrite E. cbn [bind]. destruct (HD h Hh) as [d Ed]. rewrite Ed. cbn [bind]. eexists. reflexivity.
+    + (* the target is a variant *)
+      assert (memZ target (var_ids gs) = true) as TV.
+      { destruct (memZ target (hap_ids lines)) eqn:E; [|exact TG]. exfalso.
+        apply memZ_In in E. unfold hap_ids in E. apply in_map_iff in E. destruct E as (h & Eh & Hh).
+        assert (In h hs) as Hhs.
+        { unfold hs, load_haps in *. apply in_flat_map in Hh. destruct Hh as (ln & Hln & Hh).
+          apply in_flat_map. exists ln. split; [exact Hln|]. destruct ln as [h'|i]; [|exact Hh].
+          cbn in Hh. destruct Hh as [->|[]]. unfold hflt. destruct ids as [l|]; cbn [option_map]; [|left; reflexivity].
+          rewrite memZ_cons, Eh, Z.eqb_refl. left. reflexivity. }
+        pose proof (find_hap_none _ _ TH (h_id h) (in_map h_id _ _ Hhs)) as K.
+        rewrite Eh, Z.eqb_refl in K. discriminate. }
+      destruct (find_var_present _ _ TV) as [g Eg].
+      rewrite no_bad_in_filter by exact NB.
+      set (loaded := filter _ gs).
+      assert (forall h', In h' hs -> exists d, hap_dosage loaded keep h' = Ok d) as HD.
+      { intros h' Hh'. apply (hap_dosage_ok gs); [apply HO'; exact Hh'|].
+        intros va Hva. apply find_var_filter. rewrite memZ_cons. apply orb_true_iff. right.
+        eapply hap_vars_in_set; eassumption. }
+      destruct (map_res_total (fun h0 => bind (hap_dosage loaded keep h0) (fun d => Ok (h_id h0, d))) hs) as [hd E].
+      { intros h' Hh'. destruct (HD h' Hh') as [d Ed]. rewrite Ed. cbn [bind]. eexists. reflexivity. }
+      rewrite E. cbn [bind]. unfold loaded. rewrite find_var_filter by (rewrite memZ_cons, Z.eqb_refl; reflexivity).
+      rewrite Eg. cbn [bind]. eexists. reflexivity.
+Qed.
+
+(* ---- what the boolean checkers mean ----------------------------------------------------------- *)
+
+From Coq Require Import Lqa.
+
+(* near_abs pm a2: every non-negative rational below (above) the square root of a2 is
+   below pm + eps (above pm - eps), i.e. sqrt a2 lies in [pm - eps, pm + eps] *)
+Lemma near_abs_sound pm a2 : near_abs pm a2 = true ->
+  forall a : Q, (0 <= a)%Q ->
+    ((a * a <= a2)%Q -> (a <= pm + eps)%Q) /\ ((a2 <= a * a)%Q -> (pm - eps <= a)%Q).
+Proof.
+  unfold near_abs. rewrite !andb_true_iff, orb_true_iff, !Qle_bool_iff.
+  intros [[H1 H2] H3] a Ha. split; intro K.
+  - destruct (Qlt_le_dec (pm + eps) a) as [L|L]; [|exact L]. exfalso.
+    assert ((pm + eps) * (pm + eps) < a * a)%Q by nra. lra.
+  - destruct H3 as [H3|H3]; [lra|].
+    destruct (Qlt_le_dec a (pm - eps)) as [L|L]; [|exact L]. exfalso.
+    assert (a * a < (pm - eps) * (pm - eps))%Q by nra. lra.
+Qed.
+
+Definition r_near_spec (printed : option Z) (m : option (Z * Q)) : Prop :=
+  match printed, m with
+  | None, None => True
+  | Some t, Some (s, r2) =>
+      let pm := (t # 1000)%Q in
+      if s =? 0 then (- eps <= pm <= eps)%Q
+      else forall a : Q, (0 <= a)%Q ->
+             let pm' := if 0 <? s then pm else (- pm)%Q in
+             ((a * a <= r2)%Q -> (a <= pm' + eps)%Q) /\ ((r2 <= a * a)%Q -> (pm' - eps <= a)%Q)
+  | _, _ => False
+  end.
+
+Lemma r_near_sound printed m : r_near printed m = true -> r_near_spec printed m.
+Proof.
+  unfold r_near, r_near_spec. destruct printed as [t|], m as [[s r2]|]; try discriminate; [|tauto].
+  destruct (s =? 0).
+  - rewrite andb_true_iff, !Qle_bool_iff. tauto.
+  - destruct (0 <? s); intros H a Ha; apply near_abs_sound; assumption.
+Qed.
+
+Lemma holds_ld_sound c rows td :
+  wf c = true -> l_obs c = Ok rows ->
+  dosage_of c (negb (target_is_hap c)) (l_target c) = Some td ->
+  holds_ld c = true ->
+  (forall r, In r rows -> exists d, dosage_of c (l_fg c) (fst r) = Some d /\ r_near_spec (snd r) (corr td d))
+  /\ (forall id, In id (requested c) -> countZ id (map fst rows) = 1)
+  /\ (target_is_hap c = true -> ~ In (l_target c) (map fst rows)).
+Proof.
+  intros W O T. unfold holds_ld. rewrite W, O, T. cbn [negb].
+  rewrite !andb_true_iff. intros [[[H1 H2] H3] _]. rewrite forallb_forall in H1, H2. split; [|split].
+  - intros r Hr. specialize (H1 r Hr). destruct (dosage_of c (l_fg c) (fst r)) as [d|]; [|discriminate].
+    exists d. split; [reflexivity|apply r_near_sound; exact H1].
+  - intros id Hid. apply Z.eqb_eq. apply H2. exact Hid.
+  - intros TH K. rewrite TH in H3. cbn [andb] in H3. apply negb_true_iff in H3.
+    apply memZ_In in K. congruence.
+Qed.
+
+(* ---- every R of the model is the correlation of the two dosages ---------------------------------- *)
+
+(* dosage of a haplotype / variant of the input, from the whole matrix *)
+Definition dosage_spec (gs : list gvar) (lines : list hline) (keep : list bool) (as_variant : bool) (id : Z)
+  : option (list Z) :=
+  if as_variant then option_map (var_dosage keep) (find_var id gs)
+  else match find_hap id (load_haps None lines) with
+       | Some h => match hap_dosage gs keep h with Ok d => Some d | Err _ => None end
+       | None => None end.
+
+Lemma dosage_of_spec c b id : dosage_of c b id = dosage_spec (l_gs c) (l_lines c) (l_keep c) b id.
+Proof. reflexivity. Qed.
+
+Lemma find_var_nodup gs g : NoDup (var_ids gs) -> In g gs -> find_var (gv_id g) gs = Some g.
+Proof.
+  unfold var_ids, find_var. induction gs as [|x r IH]; intros ND Hg; [contradiction|].
+  cbn [map] in ND. inversion ND as [|? ? NI ND']; subst. cbn [find]. destruct Hg as [->|Hg].
+  - rewrite Z.eqb_refl. reflexivity.
+  - destruct (gv_id x =? gv_id g) eqn:E; [|apply IH; assumption].
+    apply Z.eqb_eq in E. exfalso. apply NI. rewrite E. apply in_map. exact Hg.
+Qed.
+
+Lemma find_hap_nodup hs h : NoDup (map h_id hs) -> In h hs -> find_hap (h_id h) hs = Some h.
+Proof.
+  unfold find_hap. induction hs as [|x r IH]; intros ND Hh; [contradiction|].
+  cbn [map] in ND. inversion ND as [|? ? NI ND']; subst. cbn [find]. destruct Hh as [->|Hh].
+  - rewrite Z.eqb_refl. reflexivity.
+  - destruct (h_id x =? h_id h) eqn:E; [|apply IH; assumption].
+    apply Z.eqb_eq in E. exfalso. apply NI. rewrite E. apply in_map. exact Hh.
+Qed.
+
+Lemma hap_dosage_ext gs1 gs2 keep h :
+  (forall va, In va (h_vars h) -> find_var (fst va) gs1 = find_var (fst va) gs2) ->
+  hap_dosage gs1 keep h = hap_dosage gs2 keep h.
+Proof. intro H. unfold hap_dosage. rewrite (hap_strands_ext gs1 gs2) by exact H. reflexivity. Qed.
+
+Lemma map_res_in {A B} (key : A -> Z) (f : A -> res B) l hd :
+  map_res (fun a => bind (f a) (fun d => Ok (key a, d))) l = Ok hd ->
+  forall x, In x hd -> exists a, In a l /\ fst x = key a /\ f a = Ok (snd x).
+Proof.
+  revert hd. induction l as [|a l IH]; intros hd H x Hx; cbn in H.
+  - inversion H; subst. contradiction.
+  - destruct (f a) as [d|e] eqn:E; cbn in H; [|discriminate].
+    destruct (map_res (fun a => bind (f a) (fun d => Ok (key a, d))) l) as [r|e]; cbn in H; [|discriminate].
+    inversion H; subst. destruct Hx as [<-|Hx].
+    + exists a. cbn. split; [left; reflexivity|]. split; [reflexivity|exact E].
+    + destruct (IH r eq_refl x Hx) as (a' & Ha' & K). exists a'. split; [right; exact Ha'|exact K].
+Qed.
+
+Lemma th_none_not_hap target ids lines :
+  find_hap target (load_haps (option_map (fun l => target :: l) ids) lines) = None ->
+  memZ target (hap_ids lines) = false.
+Proof.
+  intro TH. destruct (memZ target (hap_ids lines)) eqn:E; [|reflexivity]. exfalso.
+  apply memZ_In in E. pose proof (find_hap_none _ _ TH target) as K.
+  rewrite load_haps_ids in K. rewrite Z.eqb_refl in K.
+  assert (true = false) as X; [|discriminate]. apply K. apply filter_In. split; [exact E|].
+  destruct ids as [l|]; cbn [option_map]; [|reflexivity]. rewrite memZ_cons, Z.eqb_refl. reflexivity.
+Qed.
+
+Definition row_ok (gs : list gvar) (lines : list hline) (keep : list bool) (fg : bool) (td : list Z) (r : row) : Prop :=
+  exists d, dosage_spec gs lines keep fg (fst r) = Some d /\ snd r = corr td d.
+
+Lemma target_hap_spec gs lines keep target h hs td flt :
+  NoDup (hap_ids lines) -> hs = load_haps flt lines ->
+  find_hap target hs = Some h -> hap_dosage gs keep h = Ok td ->
+  memZ target (hap_ids lines) = true /\ dosage_spec gs lines keep false target = Some td.
+Proof.
+  intros ND -> TH HD. destruct (find_hap_some _ _ _ TH) as [Hh Eid].
+  pose proof (load_haps_incl _ _ _ Hh) as Hh0. split.
+  - apply memZ_In. rewrite <- Eid. unfold hap_ids. apply in_map. exact Hh0.
+  - unfold dosage_spec. rewrite <- Eid, (find_hap_nodup _ _ ND Hh0), HD. reflexivity.
+Qed.
+
+Lemma ld_rows_lemma target gs lines keep ids fg rows :
+  NoDup (hap_ids lines) -> NoDup (var_ids gs) ->
+  calc_ld false target gs lines keep ids fg = Ok rows ->
+  exists td, dosage_spec gs lines keep (negb (memZ target (hap_ids lines))) target = Some td
+             /\ forall r, In r rows -> row_ok gs lines keep fg td r.
+Proof.
+  intros NDH NDV. unfold calc_ld. destruct fg.
+  - set (hs := load_haps None lines).
+    destruct (find_hap target hs) as [h|] eqn:TH.
+    + cbn [bind]. destruct ids as [l|].
+      * set (loaded := filter _ gs).
+        destruct (existsb _ loaded); [discriminate|]. cbn [bind].
+        destruct (hap_dosage loaded keep h) as [td|e] eqn:HD; cbn [bind]; [|discriminate].
+        intro H. inversion H; subst; clear H.
+        assert (forall id, memZ id (l ++ map fst (h_vars h)) = true -> find_var id loaded = find_var id gs) as FV
+          by (intros id Hid; apply find_var_filter; exact Hid).
+        rewrite (hap_dosage_ext loaded gs) in HD.
+        2:{ intros va Hva. apply FV. rewrite memZ_app. apply orb_true_iff. right. apply memZ_In, in_map, Hva. }
+        destruct (target_hap_spec gs lines keep target h hs td None NDH eq_refl TH HD) as [M S].
+        exists td. rewrite M. split; [exact S|].
+        intros r Hr. apply in_map_iff in Hr. destruct Hr as (g & <- & Hg).
+        apply in_flat_map in Hg. destruct Hg as (id & Hid & Hg).
+        destruct (find_var id loaded) as [g'|] eqn:E; [|contradiction]. destruct Hg as [->|[]].
+        rewrite FV in E by (rewrite memZ_app; apply orb_true_iff; left; apply memZ_In, Hid).
+        exists (var_dosage keep g). cbn [fst snd]. split; [|reflexivity].
+        unfold dosage_spec. rewrite (find_var_id _ _ _ E), E. reflexivity.
+      * destruct (existsb _ gs); [discriminate|]. cbn [bind].
+        destruct (hap_dosage gs keep h) as [td|e] eqn:HD; cbn [bind]; [|discriminate].
+        intro H. inversion H; subst; clear H.
+        destruct (target_hap_spec gs lines keep target h hs td None NDH eq_refl TH HD) as [M S].
+        exists td. rewrite M. split; [exact S|].
+        intros r Hr. apply in_map_iff in Hr. destruct Hr as (g & <- & Hg).
+        exists (var_dosage keep g). cbn [fst snd]. split; [|reflexivity].
+        unfold dosage_spec. rewrite (find_var_nodup _ _ NDV Hg). reflexivity.
+    + pose proof (th_mem target lines) as M. fold hs in M. rewrite TH in M. rewrite M. cbn [negb].
+      destruct ids as [l|]; cbn [bind].
+      * set (loaded := filter _ gs).
+        destruct (existsb _ loaded); [discriminate|]. cbn [bind].
+        destruct (find_var target loaded) as [g|] eqn:E; cbn [bind]; [|discriminate].
+        intro H. inversion H; subst; clear H.
+        unfold loaded in E. rewrite find_var_filter in E by (rewrite memZ_cons, Z.eqb_refl; reflexivity).
+        exists (var_dosage keep g). split; [unfold dosage_spec; rewrite E; reflexivity|].
+        intros r Hr. apply in_map_iff in Hr. destruct Hr as (g' & <- & Hg). apply filter_In in Hg. destruct Hg as [Hg _].
+        exists (var_dosage keep g'). cbn [fst snd]. split; [|reflexivity].
+        unfold dosage_spec. rewrite (find_var_nodup _ _ NDV Hg). reflexivity.
+      * destruct (existsb _ gs); [discriminate|]. cbn [bind].
+        destruct (find_var target gs) as [g|] eqn:E; cbn [bind]; [|discriminate].
+        intro H. inversion H; subst; clear H.
+        exists (var_dosage keep g). split; [unfold dosage_spec; rewrite E; reflexivity|].
+        intros r Hr. apply in_map_iff in Hr. destruct Hr as (g' & <- & Hg).
+        exists (var_dosage keep g'). cbn [fst snd]. split; [|reflexivity].
+        unfold dosage_spec. rewrite (find_var_nodup _ _ NDV Hg). reflexivity.
+  - set (hflt := option_map (fun l => target :: l) ids). set (hs := load_haps hflt lines).
+    (* the rows of the listed haplotypes, whatever the loaded subset of variants *)
+    assert (forall loaded td hs' hd,
+              (forall h, In h hs' -> In h hs) ->
+              (forall id, memZ id (flat_map (fun h => map fst (h_vars h)) hs) = true ->
+                          find_var id loaded = find_var id gs) ->
+              map_res (fun h => bind (hap_dosage loaded keep h) (fun d => Ok (h_id h, d))) hs' = Ok hd ->
+              forall r, In r (map (fun x : Z * list Z => (fst x, corr td (snd x))) hd) ->
+                        row_ok gs lines keep false td r) as ROWS.
+    { intros loaded td hs' hd SUB FV MR r Hr. apply in_map_iff in Hr. destruct Hr as (x & <- & Hx).
+      destruct (map_res_in h_id _ _ _ MR x Hx) as (h & Hh & E1 & E2).
+      exists (snd x). cbn [fst snd]. split; [|reflexivity].
+      pose proof (load_haps_incl _ _ _ (SUB h Hh)) as Hh0.
+      rewrite (hap_dosage_ext loaded gs) in E2
+        by (intros va Hva; apply FV; eapply hap_vars_in_set; [apply SUB; exact Hh|exact Hva]).
+      unfold dosage_spec. rewrite E1, (find_hap_nodup _ _ NDH Hh0), E2. reflexivity. }
+    destruct (find_hap target hs) as [h|] eqn:TH; cbn [bind].
+    + set (loaded := filter _ gs).
+      destruct (existsb _ loaded); [discriminate|].
+      destruct (map_res _ (remove_hap target hs)) as [hd|e] eqn:MR; cbn [bind]; [|discriminate].
+      destruct (hap_dosage loaded keep h) as [td|e] eqn:HD; cbn [bind]; [|discriminate].
+      intro H. inversion H; subst; clear H.
+      assert (forall id, memZ id (flat_map (fun h => map fst (h_vars h)) hs) = true ->
+                         find_var id loaded = find_var id gs) as FV
+        by (intros id Hid; apply find_var_filter; exact Hid).
+      destruct (find_hap_some _ _ _ TH) as [Hh _].
+      rewrite (hap_dosage_ext loaded gs) in HD
+        by (intros va Hva; apply FV; eapply hap_vars_in_set; eassumption).
+      destruct (target_hap_spec gs lines keep target h hs td hflt NDH eq_refl TH HD) as [M S].
+      exists td. rewrite M. split; [exact S|].
+      apply (ROWS loaded td (remove_hap target hs) hd); [|exact FV|exact MR].
+      intros h' Hh'. unfold remove_hap in Hh'. apply filter_In in Hh'. tauto.
+    + rewrite (th_none_not_hap _ _ _ TH). cbn [negb].
+      set (loaded := filter _ gs).
+      destruct (existsb _ loaded); [discriminate|].
+      destruct (map_res _ hs) as [hd|e] eqn:MR; cbn [bind]; [|discriminate].
+      destruct (find_var target loaded) as [g|] eqn:E; cbn [bind]; [|discriminate].
+      intro H. inversion H; subst; clear H.
+      unfold loaded in E. rewrite find_var_filter in E by (rewrite memZ_cons, Z.eqb_refl; reflexivity).
+      exists (var_dosage keep g). split; [unfold dosage_spec; rewrite E; reflexivity|].
+      apply (ROWS loaded (var_dosage keep g) hs hd); [tauto| |exact MR].
+      intros id Hid. apply find_var_filter. rewrite memZ_cons, Hid. apply orb_true_r.
+Qed.
+
+(* the R of haplotype A against variant T in the .hap output equals the R of variant T
+   against haplotype A in the .ld output *)
+Lemma hap_and_ld_outputs_agree_lemma gs lines keep T A rows1 rows2 r1 r2 :
+  NoDup (hap_ids lines) -> NoDup (var_ids gs) ->
+  ~ In T (hap_ids lines) -> In A (hap_ids lines) ->
+  calc_ld false T gs lines keep None false = Ok rows1 -> In (A, r1) rows1 ->
+  calc_ld false A gs lines keep None true = Ok rows2 -> In (T, r2) rows2 ->
+  r1 = r2.
+Proof.
+  intros NDH NDV NT HA R1 I1 R2 I2.
+  destruct (ld_rows_lemma _ _ _ _ _ _ _ NDH NDV R1) as (td1 & S1 & K1).
+  destruct (ld_rows_lemma _ _ _ _ _ _ _ NDH NDV R2) as (td2 & S2 & K2).
+  destruct (K1 _ I1) as (d1 & D1 & E1). destruct (K2 _ I2) as (d2 & D2 & E2). cbn [fst snd] in *.
+  assert (memZ T (hap_ids lines) = false) as MT
+    by (destruct (memZ T (hap_ids lines)) eqn:E; [apply memZ_In in E; contradiction|reflexivity]).
+  assert (memZ A (hap_ids lines) = true) as MA by (apply memZ_In; exact HA).
+  rewrite MT in S1. rewrite MA in S2. cbn [negb] in S1, S2.
+  rewrite S2 in D1. rewrite S1 in D2. inversion D1; inversion D2; subst.
+  apply corr_sym.
+Qed.
